@@ -40,7 +40,7 @@ type X struct {
 
 // New indexes the switch statements and loops of g's body.
 func New(g *cfgq.Graph) *X {
-	x := &X{G: g, Info: g.Info, caseOf: map[ast.Expr]*ast.SwitchStmt{}, synth: map[ast.Expr]ast.Expr{}, expd: map[types.Object]ast.Expr{}, depth: 2}
+	x := &X{G: g, Info: g.Info, caseOf: map[ast.Expr]*ast.SwitchStmt{}, synth: map[ast.Expr]ast.Expr{}, expd: map[types.Object]ast.Expr{}, depth: 3}
 	core.Inspect(g.Body, func(n ast.Node) bool {
 		switch s := n.(type) {
 		case *ast.SwitchStmt:
@@ -538,47 +538,117 @@ func (x *X) Table(traces []Trace, result int, cls Classifier) ([]Row, error) {
 	return rows, nil
 }
 
-// inline computes the rows of the same-package helper called by the literal,
-// with the helper's parameters (and receiver) bound to the call's arguments.
+// inline computes the rows of the helper behind an unrecognised literal, with the helper's
+// parameters (and receiver) bound to the call's arguments. The literal is a call of a
+// same-package function or method, of a function literal (also one passed as an argument or
+// bound to a local), or a boolean local that holds result #k of such a call.
 func (x *X) inline(l Lit, cls Classifier) ([]Row, error) {
-	call, ok := ast.Unparen(l.Expr).(*ast.CallExpr)
-	if !ok || x.Prog == nil || x.depth <= 0 || call.Ellipsis.IsValid() {
+	if x.Prog == nil || x.depth <= 0 {
+		return nil, fmt.Errorf("no inlining")
+	}
+	idx := 0
+	var call *ast.CallExpr
+	switch v := ast.Unparen(l.Expr).(type) {
+	case *ast.CallExpr:
+		call = v
+	case *ast.Ident:
+		if BoolLocal(x.Info, v) == nil {
+			return nil, fmt.Errorf("not a call")
+		}
+		d, ok := SingleDef(x.Info, x.G.Body, v)
+		if !ok || d.Rhs == nil || d.Index < 0 || d.Range != nil {
+			return nil, fmt.Errorf("not a call result")
+		}
+		c, ok := ast.Unparen(x.subst(d.Rhs)).(*ast.CallExpr)
+		if !ok {
+			return nil, fmt.Errorf("not a call result")
+		}
+		call, idx = c, d.Index
+	default:
 		return nil, fmt.Errorf("not a call")
 	}
-	f := core.CalleeFunc(x.Info, call)
-	h := x.Prog.FnOf(f)
-	if h == nil || h.Decl.Body == nil || h.Pkg.TypesInfo != x.Info || h.Decl.Body == x.G.Body {
-		return nil, fmt.Errorf("not a helper of the same package")
+	if call.Ellipsis.IsValid() {
+		return nil, fmt.Errorf("variadic call")
 	}
-	sig := f.Type().(*types.Signature)
-	if sig.Variadic() || sig.Params().Len() != len(call.Args) || sig.Results().Len() == 0 {
-		return nil, fmt.Errorf("signature not supported")
+	var params *ast.FieldList
+	var results *ast.FieldList
+	var recv *ast.FieldList
+	var hg *cfgq.Graph
+	lit, _ := ast.Unparen(call.Fun).(*ast.FuncLit)
+	if id, ok := ast.Unparen(call.Fun).(*ast.Ident); ok && lit == nil {
+		if d, ok := SingleDef(x.Info, x.G.Body, id); ok && d.Rhs != nil && d.Index == -1 {
+			lit, _ = ast.Unparen(d.Rhs).(*ast.FuncLit)
+		}
 	}
-	if b, ok := sig.Results().At(0).Type().Underlying().(*types.Basic); !ok || b.Kind() != types.Bool {
+	if lit != nil {
+		if lit.Body == x.G.Body {
+			return nil, fmt.Errorf("recursive")
+		}
+		params, results, hg = lit.Type.Params, lit.Type.Results, cfgq.OfLit(x.Prog, x.Info, lit)
+	} else {
+		f := core.CalleeFunc(x.Info, call)
+		h := x.Prog.FnOf(f)
+		if h == nil || h.Decl.Body == nil || h.Pkg.TypesInfo != x.Info || h.Decl.Body == x.G.Body {
+			return nil, fmt.Errorf("not a helper of the same package")
+		}
+		params, results, recv, hg = h.Decl.Type.Params, h.Decl.Type.Results, h.Decl.Recv, cfgq.Of(x.Prog, h)
+	}
+	// result #idx must be boolean
+	var rtypes []ast.Expr
+	if results != nil {
+		for _, fl := range results.List {
+			n := len(fl.Names)
+			if n == 0 {
+				n = 1
+			}
+			for k := 0; k < n; k++ {
+				rtypes = append(rtypes, fl.Type)
+			}
+		}
+	}
+	if idx >= len(rtypes) {
+		return nil, fmt.Errorf("no such result")
+	}
+	if b, ok := x.Info.TypeOf(rtypes[idx]).Underlying().(*types.Basic); !ok || b.Kind() != types.Bool {
 		return nil, fmt.Errorf("no boolean result")
 	}
 	bind := map[types.Object]ast.Expr{}
+	for k, v := range x.bind {
+		bind[k] = v
+	}
 	i := 0
-	for _, fl := range h.Decl.Type.Params.List {
+	for _, fl := range params.List {
+		if _, variadic := fl.Type.(*ast.Ellipsis); variadic {
+			return nil, fmt.Errorf("variadic helper")
+		}
 		for _, n := range fl.Names {
-			if o := h.Pkg.TypesInfo.Defs[n]; o != nil {
+			if i >= len(call.Args) {
+				return nil, fmt.Errorf("argument count")
+			}
+			if o := x.Info.Defs[n]; o != nil {
 				bind[o] = call.Args[i]
 			}
 			i++
 		}
-	}
-	if h.Decl.Recv != nil && len(h.Decl.Recv.List) == 1 && len(h.Decl.Recv.List[0].Names) == 1 {
-		if sel, ok := ast.Unparen(call.Fun).(*ast.SelectorExpr); ok {
-			bind[h.Pkg.TypesInfo.Defs[h.Decl.Recv.List[0].Names[0]]] = sel.X
+		if len(fl.Names) == 0 {
+			i++
 		}
 	}
-	hx := New(cfgq.Of(x.Prog, h))
+	if i != len(call.Args) {
+		return nil, fmt.Errorf("argument count")
+	}
+	if recv != nil && len(recv.List) == 1 && len(recv.List[0].Names) == 1 {
+		if sel, ok := ast.Unparen(call.Fun).(*ast.SelectorExpr); ok {
+			bind[x.Info.Defs[recv.List[0].Names[0]]] = sel.X
+		}
+	}
+	hx := New(hg)
 	hx.Prog, hx.bind, hx.depth = x.Prog, bind, x.depth-1
 	traces, err := hx.Traces(hx.G.CFG.Blocks[0], 0, nil, 200)
 	if err != nil {
 		return nil, err
 	}
-	return hx.Table(traces, 0, cls)
+	return hx.Table(traces, idx, cls)
 }
 
 // subst replaces the bound parameters of an inlined helper in e by the
